@@ -87,8 +87,9 @@ def _judge_trace(ctx, res, spec_dir, module, trace_name, what, hwm):
 def _race(ctx, what):
     golibs, other = ctx.race_reports()
     for rep in golibs:
-        frames = [l.strip() for l in rep.splitlines() if ".go:" in l and "syncutil" in l]
-        where = frames[0] if frames else "syncutil"
+        import re
+        m = re.search(r"(syncutil/[A-Za-z0-9_]+\.go:\d+)", rep)
+        where = m.group(1) if m else "syncutil"
         ctx.mismatch("data race in syncutil (%s): %s" % (what, where),
                      "the race detector reported a data race with a golibs frame during free-running stress",
                      {"report": rep[:6000]})
@@ -219,7 +220,16 @@ def run(ctx):
     mark("schedule_replay")
     ctx.exhaustive = True
     ctx.extra["schedule_replay"] = {k: tot.get(k, 0) for k in
-                                    ("replayed", "steps", "diverged", "other_legal_branch", "retries", "unconfirmed_blocks")}
+                                    ("replayed", "steps", "diverged", "other_legal_branch", "retries", "unconfirmed_blocks",
+                                     "gets_completed_while_other_key_under_construction")}
+
+    if ctx.mismatches:
+        # The verdict is decided; a code base that deadlocks under a forced schedule would also
+        # hang the free-running goroutines below, which could only turn the finding into a timeout.
+        ctx.extra["free_running_stress"] = "skipped: schedule replay already found violations"
+        b_race.cancel()
+        builder.shutdown(wait=True)
+        return
 
     # ------------------- 4. phase B: stamped logs, validated by TLC (binding T)
     # (before phase A so that an ownership / bound violation is reported as such
